@@ -42,6 +42,9 @@ pub enum WsStep {
     Send(Vec<WsMsg>),
     /// the application writes this packet (canonical frame)
     Write(#[serde(with = "hex")] Vec<u8>),
+    /// the application starts a read while nothing is in flight and drops it after its first
+    /// poll (select! with a branch that is ready at once)
+    CancelledRead,
     /// the application writes all these packets back to back while the server only starts
     /// reading 15 ms later: with the small socket buffers of such a session the transport
     /// exerts back-pressure (Pending) in the middle of the burst
@@ -83,6 +86,7 @@ enum WEv {
     ServerGotNothing,
     End { res: AppRes },
     Burst { wrote: Vec<AppRes>, got: Vec<String> },
+    Cancelled { completed: Option<AppRes> },
 }
 
 struct WsRun {
@@ -221,6 +225,13 @@ fn run_ws(sc: &WsSc) -> WsRun {
                     if stopped {
                         break 'steps;
                     }
+                },
+                WsStep::CancelledRead => {
+                    let completed = match tokio::time::timeout(Duration::ZERO, framed.read()).await {
+                        Err(_) => None,
+                        Ok(r) => Some(to_res(r)),
+                    };
+                    events.push(WEv::Cancelled { completed });
                 },
                 WsStep::WriteBurst(fs) => {
                     let pkts: Vec<insim::Packet> = fs.iter().filter_map(|f| ref_decode_packet(sc.mode, f).1).collect();
@@ -439,6 +450,7 @@ impl Prop for C20 {
             cuts.push(stream.len());
         }
         let with_other = rng.chance(2, 3);
+        let cancels = rng.chance(1, 2);
         let storms = rng.chance(1, 3);
         let mut storm_at: Vec<usize> = Vec::new();
         let mut msgs: Vec<WsMsg> = Vec::new();
@@ -513,6 +525,9 @@ impl Prop for C20 {
                 }
             }
             steps.push(WsStep::Send(batch));
+            if cancels && rng.chance(1, 5) {
+                steps.push(WsStep::CancelledRead);
+            }
             if rng.chance(1, 10) {
                 steps.push(WsStep::Write(gen::gen_out_frame(rng, mode, stats)));
             }
@@ -712,6 +727,21 @@ impl Prop for C20 {
                     }
                     check_completed!();
                     if stopped {
+                        break 'steps;
+                    }
+                },
+                WsStep::CancelledRead => {
+                    let Some(WEv::Cancelled { completed }) = evs.get(i) else {
+                        stopped = true;
+                        break 'steps;
+                    };
+                    i += 1;
+                    rep.fault("read_dropped_after_first_poll");
+                    // only a read with a partial frame (or nothing) buffered can be pending; if all
+                    // frames sent so far have been read, completing is a phantom
+                    if let Some(r) = completed {
+                        rep.violations.push(v("ws.phantom_result", format!("{} a read started with every sent frame already delivered completed at once with {:?}", tag, r)));
+                        stopped = true;
                         break 'steps;
                     }
                 },
@@ -955,6 +985,7 @@ impl Prop for C20 {
             "ended_with_partial_frame",
             "write_burst_against_slow_reader",
             "close_with_other_status",
+            "read_dropped_after_first_poll",
             "control_message_storm",
             "end_of_stream_queued_behind_unread_data",
         ]
